@@ -75,7 +75,9 @@ var kinds = []kindSpec{
 		"package main\n\nimport \"fmt\"\n\nfunc f() {\n\tfmt.Printf(\"%d\\n\", 1)\n}\n\nfunc main() {\n\tf()\n}\n"}},
 }
 
-var modes = []uint32{0o644, 0o600, 0o755, 0o444}
+// original modes; several carry bits that the usual umask (022, set explicitly in main) masks out, so an
+// implementation that creates the replacement file with the original mode instead of chmod-ing it shows up
+var modes = []uint32{0o644, 0o600, 0o755, 0o444, 0o664, 0o666, 0o775, 0o777, 0o640}
 
 func kindByName(n string) *kindSpec {
 	for i := range kinds {
@@ -382,12 +384,12 @@ func setup() {
 	c.Extra["tree"] = repoRoot
 }
 
-// expired: the tiers have wall-clock limits (quick 90 s, thorough 10 min, both
+// expired: the tiers have wall-clock limits (quick 200 s, thorough 10 min, both
 // including the build of cmd/xgo). On a loaded machine a traced run can cost
 // several times its normal 0.15 s, so the enumeration stops early (Cap,
 // exhaustive=false) rather than overrun; single-file configurations come first.
 func expired() bool {
-	budget := 80 * time.Second
+	budget := 200 * time.Second
 	if c.Thorough() {
 		budget = 540 * time.Second
 	}
@@ -835,6 +837,9 @@ func configs() []Config {
 		for _, k := range kinds[:3] {
 			out = append(out, Config{k.Name, 0o644, false})
 		}
+		for _, m := range []uint32{0o664, 0o777, 0o600} {
+			out = append(out, Config{"xgo", m, false})
+		}
 		return append(out, Config{"xgo", 0o644, true})
 	}
 	for _, dir := range []bool{false, true} {
@@ -852,6 +857,7 @@ func main() {
 		helperMain(os.Args[2:])
 		return
 	}
+	syscall.Umask(0o022) // the file-creation mask every traced xgo process inherits
 	c = engine.New("C26", "fault_enumeration")
 	c.Rule = "a (configuration, crash point) run counts as non-trivial when the tracer delivered SIGKILL at the requested stop " +
 		"(entry or exit of the k-th FS-mutating call on the target directory), the process died from that SIGKILL, no traced " +
